@@ -972,6 +972,10 @@ impl Prop for C20 {
         let join = |v: &Vec<String>| if v.is_empty() { "-".to_string() } else { v.join(" ") };
         vec![format!("resp {sa} {sz} {name}"), format!("offs {}", join(&offs)), format!("bad {}", join(&bad)), format!("fp {}", join(&fps))]
     }
+    /// a decode loop that never ends or allocates without bound must become the outcome of one case
+    fn isolate(&self) -> Option<(u64, u64)> {
+        Some((15, 8192))
+    }
     fn nontrivial(&self, _ops: &[String], out: &[String]) -> bool {
         out.len() == 4 && out[0].starts_with("resp") && out[1] != "offs -"
     }
